@@ -412,6 +412,9 @@ wrapint wrapint::sext(bitwidth_t bits_to_add) const {
     CRAB_ERROR("cannot signed extend: ", new_width,
                " is a too big bitwidth for a wrapint");
   }
+  if (bits_to_add == 0) {
+    return *this;
+  }
 
   if (msb()) {
     // -- fill upper bits with ones
